@@ -31,6 +31,7 @@ CONSTANTS
   LoadUnderLock = TRUE
   AbsentPurge = FALSE
   Reapplies = FALSE
+  ClientGones = TRUE
   Ghost = FALSE
 INVARIANTS
   TypeOK D_FetchingHasOwner D_OneOwner D_WaitersOnlyWhileFetching D_WaiterAccounted
